@@ -5,6 +5,7 @@ import JSV.Model.Hash
 import JSV.Model.Unmarshal
 import JSV.Model.Resolve
 import JSV.Model.Validate
+import JSV.Spec.Valid
 
 open JSV Driver
 
@@ -107,6 +108,20 @@ def doResolve (u : Universe) (base : String) : Res Go.Resolved :=
 def mkVEnv (u : Universe) (rs : Go.Resolved) : Go.VEnv :=
   { st := u.st, draft := rs.draft, infos := rs.infos, reMatch := Regex.matchString, hash := hashVal }
 
+/-- the Spec environment read off the resolution tables -/
+def mkSpecEnv (u : Universe) (rs : Go.Resolved) : Spec.Env :=
+  let info (s : NodeId) : Option Go.Info := Go.lookupNat s rs.infos
+  { st := u.st, draft := rs.draft,
+    refTarget := fun s => (info s).bind (·.resolvedRef),
+    dynInitial := fun s => (info s).bind (·.resolvedDynamicRef),
+    dynName := fun s => ((info s).map (·.dynamicRefAnchor)).getD "",
+    resource := fun s => (info s).bind (·.base),
+    dynDecl := fun r name => (info r).bind fun i =>
+      match Json.lookup name i.anchors with
+      | some a => if a.dynamic then some a.schema else none
+      | none => none,
+    reMatch := Regex.matchString }
+
 def hList (u : Universe) : Lean.Json := .arr (if u.folded then #[.str "D4"] else #[])
 
 def handle (op : String) (args : Lean.Json) : Except String Lean.Json := do
@@ -126,14 +141,14 @@ def handle (op : String) (args : Lean.Json) : Except String Lean.Json := do
     match ← buildUniverse args with
     | .ok u =>
       -- instances: "insts" = list of tagged JSON values, or "ginsts" = list of value descriptors
+      let jinsts : List Json ←
+        match getArg args "insts" with
+        | .arr js => js.toList.mapM decodeJson
+        | _ => pure []
       let insts : List GoVal ←
         match getArg args "ginsts" with
         | .arr gs => gs.toList.mapM decodeGoVal
-        | _ => match getArg args "insts" with
-          | .arr js => js.toList.mapM fun j => do
-              let v ← decodeJson j
-              pure (GoVal.ofJson v)
-          | _ => pure []
+        | _ => pure (jinsts.map GoVal.ofJson)
       match doResolve u base with
       | .ok rs =>
         let env := mkVEnv u rs
@@ -143,7 +158,23 @@ def handle (op : String) (args : Lean.Json) : Except String Lean.Json := do
           | .err => "invalid"
           | .panic => "panic"
           | .fuel => "fuel"
+        let senv := mkSpecEnv u rs
+        let specInsts : List (Option Json) :=
+          if jinsts.isEmpty then insts.map GoVal.denote else jinsts.map some
+        let rootOk := match u.st.get? rs.root with
+          | some rn => Generated.supportedVersions.contains rn.schema
+          | none => false
+        let specVerdicts := specInsts.map fun oj =>
+          match oj with
+          | none => "n/a"
+          | some j =>
+            if !rootOk then "invalid" else
+            match Spec.valid senv validateFuelN rs.root j with
+            | some true => "valid"
+            | some false => "invalid"
+            | none => "undefined"
         pure (Lean.Json.mkObj [
+          ("spec", .arr (specVerdicts.map str).toArray),
           ("model", outcome "resolved" [
             ("verdicts", .arr (verdicts.map str).toArray),
             ("log", .arr (rs.log.map str).toArray),
